@@ -438,13 +438,15 @@ theorem C03_nft_setup_leaves_other_tables (c : Call) (rs0 : Ruleset) (k : ChainK
     ((nftCmds c).foldl applyCmd rs0).get k = rs0.get k :=
   (nft_setup_from c rs0).2.2.2 k hk
 
-/-- **nat, stale chains.**  From ANY rule state in which killed sessions with the same port and
+/-- **nat, stale chains — partial** (the excluded case is hypothesis `hman`; without it the
+statement is false, `C03_nat_stale_owner_rule_false`, known finding
+`C03:stale-session:nat:stale-owner-mark:…`).  From ANY rule state in which killed sessions with the same port and
 owner restriction left arbitrary old rules in `sshuttle-PORT` and stale copies of the jump rules
 (nat OUTPUT / PREROUTING) and of the owner MARK rule (mangle OUTPUT): after `-F sshuttle-PORT`,
 the `-I … 1` jumps and the new `-A` rules, the verdicts are those of the NEW call.  (The real
 set-up first runs `restore_firewall`, which only deletes from these objects — C04 —, so the
 states it leaves are among the states quantified over here.) -/
-theorem C03_nat_stale_state (c : Call) (rs0 : Ruleset) (p : Pkt)
+theorem C03_nat_stale_state_partial (c : Call) (rs0 : Ruleset) (p : Pkt)
     (hfam : c.family = AF_INET ∨ c.family = AF_INET6) (hp : p.fam6 = isV6 c.family)
     (hwf : ∀ s ∈ c.subnets, Spec.WfEntry s ∧ s.fam = c.family)
     (hmark : p.mark ≠ some (toString c.port))
@@ -453,6 +455,28 @@ theorem C03_nat_stale_state (c : Call) (rs0 : Ruleset) (p : Pkt)
     (hman : ∀ r ∈ rs0.get ⟨.ipt (isV6 c.family) .mangle, .output⟩, r = natOwnerRule c) :
     verdictNat ((natCmds c).foldl applyCmd rs0) p = Spec.expectedCall c true false p :=
   nat_stale_verdict c rs0 p hfam hp hwf hmark hout hpre hman
+
+/-- Without `hman` the stale-state statement for nat is **false** of the code: a killed
+`--user alice` session leaves `-m owner --uid-owner alice -j MARK --set-mark PORT` in mangle
+OUTPUT; a new `--user bob` session on the same port deletes the old mark-matching jumps (same
+arguments as its own) but looks for the MARK rule of ITS uid, so alice's rule stays, keeps
+marking, and alice's TCP connections to bob's included subnets are diverted although the new
+plan restricts interception to bob.  (`restore_firewall` cannot know the old owner; recorded as
+a known finding.) -/
+theorem C03_nat_stale_owner_rule_false :
+    ¬ (∀ (c : Call) (rs0 : Ruleset) (p : Pkt),
+        (c.family = AF_INET ∨ c.family = AF_INET6) → p.fam6 = isV6 c.family →
+        (∀ s ∈ c.subnets, Spec.WfEntry s ∧ s.fam = c.family) →
+        p.mark ≠ some (toString c.port) →
+        (∀ r ∈ rs0.get ⟨.ipt (isV6 c.family) .nat, .output⟩, r = natJumpRule c) →
+        (∀ r ∈ rs0.get ⟨.ipt (isV6 c.family) .nat, .prerouting⟩, r = natJumpRule c) →
+        verdictNat ((natCmds c).foldl applyCmd rs0) p = Spec.expectedCall c true false p) := by
+  intro h
+  have h1 := h staleOwnerCall staleOwnerState staleOwnerPkt (by decide) (by decide) (by decide)
+    (by decide) (by decide) (by decide)
+  rw [staleOwner_diverted] at h1
+  revert h1
+  decide
 
 /-- nat set-up writes only `sshuttle-PORT`, nat OUTPUT, nat PREROUTING and mangle OUTPUT of its
 own family's binary (new rules in front of what was there); every other chain is what it was. -/
